@@ -175,8 +175,16 @@ def run(R):
     shards = []
     for mode, holder, P, n, fam, omax, dmax, umax in cfgs:
         if fam.startswith('O'):
+            kk = int(fam[1:].rstrip('cx'))
+            end = 4 + 4 * n
             for a0 in first_steps(n, fam, omax):
-                shards.append((mode, holder, P, n, a0, a0 + 1, fam, omax, dmax, umax))
+                if a0 == 0 and kk >= 3:
+                    # the "call(next)" branch is the biggest: one shard per valid second step (hi = 1000 + its code)
+                    for a1 in range(end + (4 if 'x' in fam else 1)):
+                        if H.program_ok(n, [a0, a1] + [end] * (kk - 2), omax, 'c' in fam, 'x' in fam):
+                            shards.append((mode, holder, P, n, a0, 1000 + a1, fam, omax, dmax, umax))
+                else:
+                    shards.append((mode, holder, P, n, a0, a0 + 1, fam, omax, dmax, umax))
             continue
         nperm = math.factorial(n)
         step = (2 if quick else 1) if n == 3 else 1
@@ -227,7 +235,8 @@ def run(R):
                 if fam.startswith('O'):
                     k = int(fam[1:].rstrip('cx'))
                     rep = {'family': 'O', 'mode': mode, 'holder': holder, 'P': P, 'n': n,
-                           'steps': [lo] + [args[f'a{j}'] for j in range(1, k)],
+                           'steps': ([lo, hi - 1000] + [args[f'a{j}'] for j in range(2, k)]) if hi >= 1000
+                           else [lo] + [args[f'a{j}'] for j in range(1, k)],
                            'drains': [args['dm']] * k if dmax < 0 else [args[f'd{j}'] for j in range(k)],
                            'vals': [args[f'v{i}'] for i in range(n)], 'unwind': args['uw']}
                 else:
@@ -281,7 +290,7 @@ def run(R):
         if fam.startswith('O'):
             kk = int(fam[1:].rstrip('cx'))
             name0 = (f'online program, P={P}, N={n}, call(w0) then {kk} symbolic steps starting with '
-                     f'"{H.describe_program(n, [lo])[1] if lo != 4 + 4 * n else "end"}"'
+                     f'"{", ".join(H.describe_program(n, [lo] + ([hi - 1000] if hi >= 1000 else []))[1:]) if lo != 4 + 4 * n else "end"}"'
                      f'{" (incl. Task.cancel steps)" if "c" in fam else ""}{" (external semaphore client + outside pool.call)" if "x" in fam else ""}, outcomes 0..{omax}: all aspects')
         name = name0 + (f' except {H.names(settled[s][1])}' if s in settled and settled[s][1] else '') if fam.startswith('O') else (f'{mode}, caller_holds_permit={holder}, P={P}, N={n}, {famtxt}, outcomes 0..{omax}, resolve orders '
                 f'{lo}..{hi - 1}: all aspects'
